@@ -5,6 +5,7 @@ import (
 	"go/ast"
 	"go/token"
 	"path/filepath"
+	"strconv"
 	"strings"
 )
 
@@ -98,16 +99,21 @@ func genNumKey(repo string) (string, error) {
 					lo = l
 				}
 			}
-			if be, ok := fs.Cond.(*ast.BinaryExpr); ok && be.Op == token.LEQ {
+			// i <= b, or i < b+1 (the bound as a literal or a named constant)
+			if be, ok := fs.Cond.(*ast.BinaryExpr); ok && (be.Op == token.LEQ || be.Op == token.LSS) {
 				if l, ok := numOf(be.Y, consts); ok {
-					hi = l
+					if be.Op == token.LEQ {
+						hi = l
+					} else if n, err := strconv.Atoi(l); err == nil && n > 0 {
+						hi = strconv.Itoa(n - 1)
+					}
 				}
 			}
 			return true
 		})
 	}
 	if lo == "" || hi == "" {
-		return "", fmt.Errorf("createAbstractNum: level loop `for i := a; i <= b; i++` not found")
+		return "", fmt.Errorf("createAbstractNum: level loop `for i := a; i <= b; i++` (or `i < b`) not found")
 	}
 	var b strings.Builder
 	b.WriteString("From Coq Require Import List String.\nImport ListNotations.\nOpen Scope string_scope.\n\n")
